@@ -35,6 +35,8 @@ func runC11(c *Ctx) {
 		R.Unproven("views", "maps.Bimap", "anchor", "", "fields forward/reverse not found")
 		return
 	}
+	R.Rule("lazy-init", "forward and reverse are (re)created together and only when absent; entries are inserted only into a map that exists on that path", 1)
+	c11LazyInit(c, fF, fR)
 	// which map is a term? "F", "R" or ""
 	mapKind := func(p *Path, recv *Term, t *Term) string {
 		if t == nil {
@@ -516,6 +518,96 @@ func runC11(c *Ctx) {
 			if !ok {
 				o.Breaks = "clone and original share a map: a change to one shows in the other"
 			}
+		}
+	}
+}
+
+// c11LazyInit: the two maps are created together, re-created only when absent, and written only when present.
+func c11LazyInit(c *Ctx, fF, fR *types.Var) {
+	rule := "lazy-init"
+	R := c.R
+	for _, fi := range c.P.FuncsOfPkg("maps") {
+		if !strings.HasPrefix(fi.Name, "maps.(*Bimap).") && !strings.HasPrefix(fi.Name, "maps.(Bimap).") {
+			continue
+		}
+		fp := c.An.PathsOf(fi.SSA)
+		if fp.Unproven != "" {
+			continue
+		}
+		recv := paramOf(fi, 0)
+		ok, why := true, ""
+		n := 0
+		for _, p := range fp.Paths {
+			if p.End == EndPanic {
+				continue
+			}
+			var stF, stR []*Event
+			for i := range p.Events {
+				e := &p.Events[i]
+				if e.Kind == "store" && isFieldAddr(e.Addr, fF, recv) {
+					stF = append(stF, e)
+				}
+				if e.Kind == "store" && isFieldAddr(e.Addr, fR, recv) {
+					stR = append(stR, e)
+				}
+			}
+			absentBefore := func(ncond int) bool {
+				for i, cd := range p.Conds {
+					if i >= ncond {
+						break
+					}
+					r := cd.Rel()
+					if r.B != nil && r.Op == "==" && r.B.IsNil() && (isFieldLoad(r.A, fF, recv) || isFieldLoad(r.A, fR, recv)) {
+						return true
+					}
+				}
+				return false
+			}
+			presentBefore := func(ncond int) bool {
+				for i, cd := range p.Conds {
+					if i >= ncond {
+						break
+					}
+					r := cd.Rel()
+					if r.B != nil && r.Op == "!=" && r.B.IsNil() && (isFieldLoad(r.A, fF, recv) || isFieldLoad(r.A, fR, recv)) {
+						return true
+					}
+				}
+				return false
+			}
+			if len(stF)+len(stR) > 0 {
+				n++
+				if len(stF) != len(stR) {
+					ok, why = false, fmt.Sprintf("a path (%s) replaces one of the two maps without the other: one direction stays nil (the next insert panics) or keeps stale entries", p.CondString())
+				}
+				for _, e := range append(append([]*Event{}, stF...), stR...) {
+					if e.Val.Op == "mkmap" && !absentBefore(e.NCond) {
+						ok, why = false, fmt.Sprintf("a path (%s) re-creates a map that may hold entries", p.CondString())
+					}
+				}
+			}
+			for i := range p.Events {
+				e := &p.Events[i]
+				if e.Kind != "mapupdate" {
+					continue
+				}
+				n++
+				m := e.Addr
+				switch {
+				case m.Op == "mkmap":
+				case isFieldLoad(m, fF, recv) || isFieldLoad(m, fR, recv):
+					if !presentBefore(e.NCond) {
+						ok, why = false, fmt.Sprintf("a path (%s) inserts into a map that has not been found non-nil (nor created on this path)", p.CondString())
+					}
+				}
+			}
+		}
+		if n == 0 {
+			continue
+		}
+		o := R.Decide(ok, rule, fi.Name, "maps", c.pos(fi), "maps created in pairs, only when absent; inserts only into maps that exist", why)
+		if !ok {
+			o.Breaks = "assignment to entry in nil map (panic) or all pairs dropped by an unconditional re-creation"
 		}
 	}
 }
